@@ -1,6 +1,6 @@
 (* C01: the ladder statements in propositional form, the lift to tool-grown histories, and the
    witnesses showing which hypotheses of c01_step cannot be dropped. *)
-From VV.M1 Require Import Oracles Hyp NormalizeP BtP DiffP DiffEqP KahnP ApplyLocalP DiffPermP AttrsP GrowP C01P WitnessP.
+From VV.M1 Require Import Oracles Hyp NormalizeP BtP DiffP DiffEqP KahnP ApplyLocalP DiffPermP AttrsP GrowP ChangeP C01P WitnessP.
 From Coq Require Import Lia Permutation.
 
 (* split conjunctions only (never an equation: [split] on [eq] would unify by lazy conversion) *)
@@ -232,6 +232,41 @@ Theorem C01_grow_histories H B T :
     Grown c01_grow_models (H ++ [fill_plan p B]).
 Proof. exact (gen_histories grow_only grow_only_sound H B T). Qed.
 
+(* ---------- instances: changing steps (also plain columns dropped, table-level constraints removed) ---------- *)
+Definition c01_change_models : schema -> schema -> bool := c01_models change_only.
+Lemma change_only_sound : group_sound change_only.
+Proof. exact change_fold. Qed.
+
+Theorem c01_change_sound B T : c01_change B T = true ->
+  exists acts B',
+    diff_actions B T = Ok acts /\ apply_all B acts = Ok B' /\ baseline_ok B' = true
+    /\ diff_actions B' T = Ok [] /\ diff_actions T B' = Ok [].
+Proof.
+  unfold c01_change. rewrite andb_true_iff. intros [HB Hm].
+  exact (gen_step_sound change_only change_only_sound B T HB Hm).
+Qed.
+
+Theorem C01_change B T : c01_change B T = true -> closes_gap B T = true.
+Proof.
+  unfold c01_change. rewrite andb_true_iff. intros [HB Hm].
+  exact (gen_closes change_only change_only_sound B T HB Hm).
+Qed.
+
+Theorem C01_change_history_baseline H : Grown c01_change_models H ->
+  exists B, replay H = Ok B /\ baseline_ok B = true.
+Proof. exact (gen_history_baseline change_only change_only_sound H). Qed.
+
+Theorem C01_change_histories H B T :
+  Grown c01_change_models H -> replay H = Ok B -> c01_change_models B T = true ->
+  exists p B',
+    plan_next T H = Ok p /\ closes_gap B T = true /\
+    replay (H ++ [fill_plan p B]) = Ok B' /\ baseline_ok B' = true /\
+    diff_actions B' T = Ok [] /\ diff_actions T B' = Ok [] /\
+    plan_next T (H ++ [fill_plan p B])
+      = Ok (mkPlan "" None None (next_version (H ++ [fill_plan p B])) []) /\
+    Grown c01_change_models (H ++ [fill_plan p B]).
+Proof. exact (gen_histories change_only change_only_sound H B T). Qed.
+
 (* attribute steps are growing steps *)
 Lemma attrs_only_grow b tn : attrs_only b tn = true -> grow_only b tn = true.
 Proof.
@@ -291,6 +326,31 @@ Lemma w_grow_hyp :
         AddColumn "t" (w_col "b" (TVarchar 8) true None (Some "new")) None;
         AddColumn "t" (w_col "c" (TSimple Integer) true None None) None;
         AddConstraint "t" (CUnique (Some "ua") ["a"; "b"]); AddConstraint "t" (CIndex None ["c"]);
+        AddConstraint "t" (CForeignKey None ["c"] "new" ["id"] None None)].
+Proof. vm_conj. Qed.
+
+(* a changing step outside c01_grow: plain column dropped, table-level index and check removed, besides
+   a created and a dropped table, attribute changes, an added plain column and two added constraints *)
+Definition w_change_B : schema := Eval vm_compute in
+  w_norm [mkTable "t" None [pkcol "id"; icol "a"; icol "b"; icol "c"]
+            [CIndex None ["c"]; CUnique (Some "uc") ["c"]; CCheck "pos" "c > 0"];
+          mkTable "gone" None [pkcol "id"] []].
+Definition w_change_T : schema :=
+  [mkTable "t" None
+     [pkcol "id"; w_col "a" (TSimple Text) false (Some (DStr "x")) None; icol "c";
+      w_col "d" (TVarchar 8) true None (Some "new")]
+     [CUnique (Some "uc") ["c"]; CUnique None ["a"; "d"]; CForeignKey None ["c"] "new" ["id"] None None];
+   mkTable "new" None [pkcol "id"] []].
+Lemma w_change_hyp :
+  c01_change w_change_B w_change_T = true /\ c01_grow w_change_B w_change_T = false /\
+  loader_accepts w_change_T = true /\
+  diff_actions w_change_B w_change_T =
+    Ok [CreateTable "new" [pkcol "id"] []; DeleteTable "gone"; DeleteColumn "t" "b";
+        ModifyColumnType "t" "a" (TSimple Text) None; ModifyColumnNullable "t" "a" false None;
+        ModifyColumnDefault "t" "a" (Some "x");
+        AddColumn "t" (w_col "d" (TVarchar 8) true None (Some "new")) None;
+        RemoveConstraint "t" (CIndex None ["c"]); RemoveConstraint "t" (CCheck "pos" "c > 0");
+        AddConstraint "t" (CUnique None ["a"; "d"]);
         AddConstraint "t" (CForeignKey None ["c"] "new" ["id"] None None)].
 Proof. vm_conj. Qed.
 
